@@ -838,7 +838,19 @@ pub fn gen_pipe(args: &Args) {
     let mut w = TraceWriter::create(&args.str("out", "pipe.ndjson"));
     let mut with_search = 0;
     for i in 0..n {
-        let (mut site, date) = if i % 3 != 0 { twilight_edge_case(&mut r, 640_000) } else { (rand_site(&mut r, 640_000, 0), rand_date(&mut r)) };
+        // two thirds below 64 degrees (two thirds of those on twilight-edge days); one third anywhere up to the poles,
+        // half of those in the bands around the polar circles where sunrise / the interval methods' angle-0 Isha stop existing
+        let (mut site, date) = if i % 3 == 2 {
+            let mut s = rand_site(&mut r, 900_000, 0);
+            if r.chance(1, 2) {
+                s.lat = (650_000 + r.range(0, 60_000)) * if r.chance(1, 2) { 1 } else { -1 };
+            }
+            (s, rand_date(&mut r))
+        } else if i % 3 == 1 || i % 9 != 0 {
+            twilight_edge_case(&mut r, 640_000)
+        } else {
+            (rand_site(&mut r, 640_000, 0), rand_date(&mut r))
+        };
         site.gmt = natural_gmt(site.lon);
         let mut p = P::of_method(r.range(1, 8) as usize);
         if r.chance(1, 4) && p.ii == 0 {
@@ -857,6 +869,9 @@ pub fn gen_pipe(args: &Args) {
         p.nl = *r_pick(&mut r, &[485_000i64, -485_000, 300_000, 550_000, 600_000]);
         if site.lat < 0 && r.chance(1, 2) {
             p.nl = -p.nl.abs();
+        }
+        if r.chance(1, 5) {
+            p.nl = r.range(-900_000, 900_000);
         }
         p.rnd = 0;
         if r.chance(1, 3) {
